@@ -26,9 +26,9 @@ def parseEx : Toks → Option (Ex × Toks)
     match parseNats rest [] with
     | some (vs, rest) =>
       match fl with
-      | "n" => some (⟨false, false, vs⟩, rest)
-      | "c" => some (⟨true, false, vs⟩, rest)
-      | "ci" => some (⟨true, true, vs⟩, rest)
+      | "n" => some (⟨false, false, vs, 0⟩, rest)
+      | "c" => some (⟨true, false, vs, 0⟩, rest)
+      | "ci" => some (⟨true, true, vs, 0⟩, rest)
       | _ => none
     | none => none
   | _ => none
